@@ -4,6 +4,7 @@ import OxiVerif.Lemmas.C07
 import OxiVerif.Lemmas.C07A85
 import OxiVerif.Lemmas.C07Chain
 import OxiVerif.Lemmas.C07Flate
+import OxiVerif.Lemmas.C07Tiff
 import OxiVerif.Model.C07Ccitt
 /-!
 C07 — every supported stream filter decodes exactly what a reference encoder encoded.
@@ -15,17 +16,23 @@ element < 256) — proofs are by induction over the input, there is no length bo
 decoder's own 256 MiB output ceiling (`maxDecompressedSize`, a hypothesis where it matters).
 
 White space: "`s` is `e` with white space interleaved anywhere" is stated as
-`s.filter (fun c => !isAsciiWs c) = e` — any number of white-space bytes at any positions.
+`s.filter (fun c => !isPdfWs c) = e` — any number of white-space bytes (ISO 32000-1 Table 1: NUL HT LF
+FF CR SP) at any positions.
+
+Four defects found by this property have been repaired in the library (`fix:` commits in /repo):
+C07-F1 TIFF predictor, C07-F2 NUL white space, C07-F3 ASCII85 leading `<`; the model mirrors the
+repaired code, the former `_partial` statements are proved in full, and each old witness is kept as a
+`C07_regression_…` statement about the unrepaired definition.
 -/
 namespace OxiVerif.Flt
 open OxiVerif.Codec
 
 /-! ## 1. ASCIIHexDecode -/
 
-/-- **ASCIIHex round trip**: upper- or lower-case digits, white space (SP HT LF FF CR) anywhere, with
+/-- **ASCIIHex round trip**: upper- or lower-case digits, white space (NUL HT LF FF CR SP) anywhere, with
 or without the EOD `>` (and anything after it), any limit the plaintext fits in. -/
 theorem C07_hex_roundtrip (L : Nat) (upper : Bool) (b s t : List Nat) (hb : Bytes b)
-    (ht : t = [] ∨ ∃ t', t = 62 :: t') (hs : s.filter (fun c => !isAsciiWs c) = hexEnc upper b ++ t)
+    (ht : t = [] ∨ ∃ t', t = 62 :: t') (hs : s.filter (fun c => !isPdfWs c) = hexEnc upper b ++ t)
     (hL : b.length ≤ L) : hexDec L s = .ok b := by
   unfold hexDec
   rw [hs]
@@ -35,21 +42,27 @@ example : hexDec 3 [52, 56, 10, 54, 53, 32, 54, 99, 62, 7] = .ok [72, 101, 108] 
   refine C07_hex_roundtrip 3 false [72, 101, 108] _ [62, 7] (by decide) (Or.inr ⟨_, rfl⟩) ?_ (by decide)
   decide
 
-/- FULL (ISO 32000-1 §7.4.2 "all white-space characters shall be ignored", Table 1 incl. NUL):
-     s.filter (fun c => !isPdfWs c) = hexEnc upper b ++ t → hexDec L s = .ok b
-   FALSE of the code: `u8::is_ascii_whitespace` does not contain NUL (and the ASCII85 decoder uses the
-   same test).  Witness below; known finding C07-F2. -/
-theorem C07_witness_hex_nul_is_not_skipped :
-    hexDec 10 ([52, 56, 0, 54, 53] ++ [62]) ≠ .ok [72, 101] ∧
+/-- regression for C07-F2: with the filter of the unrepaired code (`u8::is_ascii_whitespace`, no NUL) a
+NUL between the digits was an invalid digit; `is_pdf_whitespace` skips it. -/
+theorem C07_regression_hex_nul :
+    hexGo 10 0 ([52, 56, 0, 54, 53, 62].filter (fun c => !isAsciiWs c)) = .err .decode ∧
+    hexDec 10 [52, 56, 0, 54, 53, 62] = .ok [72, 101] ∧
     [52, 56, 0, 54, 53, 62].filter (fun c => !(pdfWhiteSpace.contains c)) = hexEnc false [72, 101] ++ [62] := by
   decide
+
+/-- the decoder's white-space test is Table 1 of the specification -/
+theorem isPdfWs_eq_table1 (c : Nat) : isPdfWs c = pdfWhiteSpace.contains c := by
+  unfold isPdfWs isAsciiWs pdfWhiteSpace
+  rw [Bool.eq_iff_iff]
+  simp only [List.contains_cons, List.contains_nil, Bool.or_false, Bool.or_eq_true, beq_iff_eq]
+  omega
 
 /-! ## 2. ASCII85Decode -/
 
 /-- **ASCII85 round trip, `<~ … ~>` form**: all byte strings, `z` groups, partial final groups,
 white space anywhere. -/
 theorem C07_a85_roundtrip_prefixed (L : Nat) (b s t : List Nat) (hb : Bytes b)
-    (hs : s.filter (fun c => !isAsciiWs c) = 60 :: 126 :: (a85Enc b ++ 126 :: 62 :: t))
+    (hs : s.filter (fun c => !isPdfWs c) = 60 :: 126 :: (a85Enc b ++ 126 :: 62 :: t))
     (hL : b.length ≤ L) : a85Dec L s = .ok b := by
   unfold a85Dec
   rw [hs]
@@ -59,41 +72,60 @@ example : a85Dec 5 [60, 126, 56, 55, 99, 10, 85, 82, 68, 90, 126, 62] = .ok [72,
   refine C07_a85_roundtrip_prefixed 5 [72, 101, 108, 108, 111] _ [] (by decide) ?_ (by decide)
   decide
 
-/- FULL (ISO 32000-1 §7.4.3: the stream is digits + `~>`, there is no `<~` in PDF):
-     s.filter (fun c => !isAsciiWs c) = a85Enc b ++ 126 :: 62 :: t → a85Dec L s = .ok b
-   FALSE of the code when the first digit is `<` (first byte of `b` in 0x54..0x56 for a full group):
-   "Skip optional <~ prefix" consumes the byte after a lone `<`.  Proved under the explicit
-   hypothesis; witness below; known finding C07-F3. -/
 theorem a85Start_of_ne (c : Nat) (l : List Nat) (h : c ≠ 60) : a85Start (c :: l) = c :: l := by
   unfold a85Start
   split
   · rename_i h'; cases h'; exact absurd rfl h
+  · rfl
+
+theorem a85Start_of_second_ne (c c2 : Nat) (l : List Nat) (h : c2 ≠ 126) : a85Start (c :: c2 :: l) = c :: c2 :: l := by
+  unfold a85Start
+  split
   · rename_i h'; cases h'; exact absurd rfl h
   · rfl
 
-theorem C07_a85_roundtrip_partial (L : Nat) (b s t : List Nat) (hb : Bytes b)
-    (hs : s.filter (fun c => !isAsciiWs c) = a85Enc b ++ 126 :: 62 :: t)
-    (hlt : (a85Enc b).head? ≠ some 60)
+/-- the prefix skipper leaves every reference encoding alone: it never starts with `<` `~` -/
+theorem a85Start_a85Enc (t : List Nat) : ∀ b : List Nat,
+    a85Start (a85Enc b ++ 126 :: 62 :: t) = a85Enc b ++ 126 :: 62 :: t
+  | a :: b :: c :: d :: rest => by
+    simp only [a85Enc]
+    split
+    · exact a85Start_of_ne 122 _ (by decide)
+    · simp only [a85Digits, List.cons_append]
+      exact a85Start_of_second_ne _ _ _ (by omega)
+  | [a, b, c] => by
+    simp only [a85Enc, a85Digits, List.take_succ_cons, List.take_zero, List.cons_append]
+    exact a85Start_of_second_ne _ _ _ (by omega)
+  | [a, b] => by
+    simp only [a85Enc, a85Digits, List.take_succ_cons, List.take_zero, List.cons_append]
+    exact a85Start_of_second_ne _ _ _ (by omega)
+  | [a] => by
+    simp only [a85Enc, a85Digits, List.take_succ_cons, List.take_zero, List.cons_append]
+    exact a85Start_of_second_ne _ _ _ (by omega)
+  | [] => by
+    simp only [a85Enc, List.nil_append]
+    exact a85Start_of_ne 126 _ (by decide)
+
+/-- **ASCII85 round trip, PDF form** (ISO 32000-1 §7.4.3: digits + `~>`, no `<~`): all byte strings,
+including those whose first digit is `<`. -/
+theorem C07_a85_roundtrip (L : Nat) (b s t : List Nat) (hb : Bytes b)
+    (hs : s.filter (fun c => !isPdfWs c) = a85Enc b ++ 126 :: 62 :: t)
     (hL : b.length ≤ L) : a85Dec L s = .ok b := by
   unfold a85Dec
-  rw [hs]
-  have hstart : a85Start (a85Enc b ++ 126 :: 62 :: t) = a85Enc b ++ 126 :: 62 :: t := by
-    cases he : a85Enc b with
-    | nil => rfl
-    | cons c cs =>
-      rw [he] at hlt
-      exact a85Start_of_ne c _ (by simpa using hlt)
-  rw [hstart]
+  rw [hs, a85Start_a85Enc]
   exact a85Go_a85Enc L t b 0 hb (by omega)
 
-example : a85Dec 4 [56, 55, 99, 85, 82, 126, 62] = .ok [72, 101, 108, 108] := by
-  refine C07_a85_roundtrip_partial 4 [72, 101, 108, 108] _ [] (by decide) ?_ (by decide) (by decide)
+example : a85Dec 4 [60, 43, 85, 44, 109, 126, 62] = .ok [84, 101, 115, 116] := by
+  refine C07_a85_roundtrip 4 [84, 101, 115, 116] _ [] (by decide) ?_ (by decide)
   decide
 
-/-- "Test" encodes to `<+U,m` — the decoder drops the `+` and fails -/
-theorem C07_witness_a85_leading_lt :
+/-- regression for C07-F3: "Test" encodes to `<+U,m`; the unrepaired skipper (`a85StartOld`) dropped
+the `+`, the repaired one leaves the digits alone. -/
+theorem C07_regression_a85_leading_lt :
     a85Enc [84, 101, 115, 116] = [60, 43, 85, 44, 109] ∧
-    a85Dec 100 (a85Enc [84, 101, 115, 116] ++ [126, 62]) ≠ .ok [84, 101, 115, 116] := by
+    a85StartOld ([60, 43, 85, 44, 109] ++ [126, 62]) = [60, 85, 44, 109, 126, 62] ∧
+    a85Go 100 0 [] (a85StartOld ([60, 43, 85, 44, 109] ++ [126, 62])) ≠ .ok [84, 101, 115, 116] ∧
+    a85Dec 100 (a85Enc [84, 101, 115, 116] ++ [126, 62]) = .ok [84, 101, 115, 116] := by
   decide
 
 /-! ## 3. RunLengthDecode -/
@@ -137,7 +169,7 @@ theorem C07_png_predictor_roundtrip (pred columns colors bpc : Nat) (d : Dict)
     (hl : data.length = k * rowBytes columns colors bpc) (hbytes : Bytes data) :
     applyPredictor (pngEnc (rowBytes columns colors bpc) (pngBpp colors bpc) types data) pred d = .ok data := by
   unfold applyPredictor
-  rw [if_neg (by omega), if_pos hp]
+  rw [if_neg (by omega), if_neg (by omega), if_pos hp]
   exact pngAdvanced_pngEnc columns colors bpc d hc hk hb hpos hfit types ht k data hl hbytes
 
 example : applyPredictor (pngEnc 3 3 [4, 1] [1, 2, 3, 4, 5, 6]) 15
@@ -147,16 +179,40 @@ example : applyPredictor (pngEnc 3 3 [4, 1] [1, 2, 3, 4, 5, 6]) 15
 
 /-! ## 5. TIFF predictor 2 -/
 
-/- FULL: applyPredictor (tiffEnc columns colors bpc data) 2 d = .ok data
-   FALSE of the code: `apply_predictor` has no arm for 2, the data comes back undecoded.
-   Known finding C07-F1. -/
-/-- what the code does with /Predictor 2 (and any value other than 1, 10–15): nothing -/
-theorem C07_tiff_predictor_is_identity_partial (data : List Nat) (d : Dict) :
-    applyPredictor data 2 d = .ok data := rfl
+/-- **TIFF predictor 2 round trip, 8 bits per component** through `apply_predictor`: every Columns and
+Colors, every data length (a trailing partial row is left alone by both sides). -/
+theorem C07_tiff_predictor_roundtrip_8 (columns colors : Nat) (d : Dict)
+    (hc : d.columns = .int columns) (hk : d.colors = .int colors) (hb : d.bpc = .int 8)
+    (hcol : columns < two64) (hcolr : colors < two64) (hfit : columns * colors * 8 + 7 < two64)
+    (data : List Nat) (hbytes : Bytes data) :
+    applyPredictor (tiffEnc columns colors 8 data) 2 d = .ok data := by
+  unfold applyPredictor
+  rw [if_neg (by omega), if_pos rfl]
+  exact tiffPredictor_tiffEnc8 columns colors d hc hk hb hcol hcolr hfit data hbytes
 
-theorem C07_witness_tiff_predictor_undecoded :
+example : applyPredictor (tiffEnc 2 3 8 [1, 2, 3, 5, 7, 9, 0, 0, 0, 255, 1, 2, 77]) 2
+    { predictor := .int 2, columns := .int 2, colors := .int 3, bpc := .int 8 } =
+    .ok [1, 2, 3, 5, 7, 9, 0, 0, 0, 255, 1, 2, 77] :=
+  C07_tiff_predictor_roundtrip_8 2 3 _ rfl rfl rfl (by decide) (by decide) (by decide) _ (by decide)
+
+/- FULL: applyPredictor (tiffEnc columns colors bpc data) 2 d = .ok data for bpc ∈ {1, 2, 4, 8, 16}.
+   Proved above for bpc = 8.  For 16 bits and for 1/2/4 bits per component (samples cut out of the
+   bit string) there is no theorem; those depths are covered by the correspondence run (colours 1–4 ×
+   columns 1–64 × 1–5 rows, Flate and LZW).  The statement below is the kernel-checked instance used as
+   non-vacuity evidence for them. -/
+theorem C07_tiff_predictor_subbyte_16_instances_partial :
+    applyPredictor (tiffEnc 3 2 2 [0x1b, 0x60, 0xe4, 0xf0]) 2
+      { predictor := .int 2, columns := .int 3, colors := .int 2, bpc := .int 2 } = .ok [0x1b, 0x60, 0xe4, 0xf0] ∧
+    applyPredictor (tiffEnc 2 1 16 [0x12, 0x34, 0xff, 0xff]) 2
+      { predictor := .int 2, columns := .int 2, colors := .int 1, bpc := .int 16 } = .ok [0x12, 0x34, 0xff, 0xff] := by
+  decide
+
+/-- regression for C07-F1: the unrepaired `apply_predictor` had no arm for 2 and returned the
+differenced samples -/
+theorem C07_regression_tiff_predictor :
     tiffEnc 3 1 8 [10, 20, 30] = [10, 10, 10] ∧
-    applyPredictor (tiffEnc 3 1 8 [10, 20, 30]) 2 { predictor := .int 2, columns := .int 3 } ≠ .ok [10, 20, 30] := by
+    applyPredictorOld (tiffEnc 3 1 8 [10, 20, 30]) 2 { predictor := .int 2, columns := .int 3 } = .ok [10, 10, 10] ∧
+    applyPredictor (tiffEnc 3 1 8 [10, 20, 30]) 2 { predictor := .int 2, columns := .int 3 } = .ok [10, 20, 30] := by
   decide
 
 /-- a stage without an (integer) /Predictor: the post-processing of `apply_filter_with_params` is void -/
@@ -209,10 +265,10 @@ theorem C07_flate_stored_roundtrip_partial (block : Nat) (b : List Nat) (p : Opt
   have hz := tryStandardZlib_stored block b hL
   unfold applyFilterWithParams
   cases p with
-  | none => simp only [decodeFlate, hz, Res.bind]
+  | none => simp [decodeFlate, hz, Res.bind]
   | some d =>
     have := hp d rfl
-    simp only [this, Option.isSome_none, Bool.false_eq_true, if_false, decodeFlate, hz, Res.bind]
+    simp [this, decodeFlate, hz, Res.bind]
 
 example : applyFilterWithParams inflateExt (zlibStored 2 [5, 6, 7]) .flate none = .ok [5, 6, 7] :=
   C07_flate_stored_roundtrip_partial 2 [5, 6, 7] none (fun _ h => by cases h) (by decide)
@@ -233,7 +289,7 @@ theorem C07_flate_png_roundtrip_partial (block pred columns colors bpc : Nat) (d
   have hpr := C07_png_predictor_roundtrip pred columns colors bpc d hp hc hk hb hpos hfit types ht k data hl hbytes
   have hu : asU32 (pred : Int) = pred := asU32_ofNat pred (by unfold two32; omega)
   unfold applyFilterWithParams
-  simp only [hpd, PVal.asInt, Option.isSome_some, if_true, hz, Res.bind, hu, hpr]
+  simp [hpd, PVal.asInt, hz, Res.bind, hu, hpr]
 
 example : applyFilterWithParams inflateExt (zlibStored 4 (pngEnc 2 1 [2] [9, 9, 9, 9])) .flate
     (some { predictor := .int 12, columns := .int 2, colors := .int 1, bpc := .int 8 }) = .ok [9, 9, 9, 9] :=
@@ -279,7 +335,7 @@ theorem C07_lzw_png_compose_partial (E : Ext) (enc : List Nat → List Nat) (pre
   have hpr := C07_png_predictor_roundtrip pred columns colors bpc d hp hc hk hb hpos hfit types ht k data hl hbytes
   have hu : asU32 (pred : Int) = pred := asU32_ofNat pred (by unfold two32; omega)
   unfold applyFilterWithParams
-  simp only [hlzw, hpd, PVal.asInt, Res.bind, hu, hpr]
+  simp [hlzw, hpd, PVal.asInt, Res.bind, hu, hpr]
 
 example : applyFilterWithParams ⟨fun _ => .ext 1, fun _ => .ext 1⟩ (lzwEnc true 4096 (pngEnc 2 1 [1] [7, 7])) .lzw
     (some { predictor := .int 11, columns := .int 2, colors := .int 1, bpc := .int 8 }) = .ok [7, 7] :=
@@ -288,7 +344,9 @@ example : applyFilterWithParams ⟨fun _ => .ext 1, fun _ => .ext 1⟩ (lzwEnc t
 
 /-! ## 6. Filter chains -/
 
-theorem applyFilter_noPredictor (E : Ext) (data : List Nat) (f : FName) (p : Option Dict) (hp : NoPredictor p)
+/-- ASCIIHex, ASCII85 and RunLength stages ignore `DecodeParms` altogether (a /Predictor there is not
+applied: repair of C08-F4) -/
+theorem applyFilter_byteFilter (E : Ext) (data : List Nat) (f : FName) (p : Option Dict)
     (hf : f = .hex ∨ f = .a85 ∨ f = .rl) (o : List Nat)
     (h : (match f with
       | .hex => hexDec maxDecompressedSize data
@@ -297,22 +355,20 @@ theorem applyFilter_noPredictor (E : Ext) (data : List Nat) (f : FName) (p : Opt
       | _ => .err .syntax) = .ok o) :
     applyFilterWithParams E data f p = .ok o := by
   unfold applyFilterWithParams
-  rcases hf with rfl | rfl | rfl <;> simp only at h ⊢ <;> rw [h] <;> simp only [Res.bind] <;>
-    (cases p with
-     | none => rfl
-     | some d => simp only [hp d rfl])
+  rcases hf with rfl | rfl | rfl <;> simp only at h ⊢ <;> rw [h] <;> simp [Res.bind]
 
 /-- ASCIIHex stage: digits in either case, optional white space pattern `ws` (a function inserting
 ASCII white space), EOD -/
 def hexStage (upper : Bool) (p : Option Dict) : Stage := ⟨.hex, p, fun x => hexEnc upper x ++ [62]⟩
-def a85Stage (p : Option Dict) : Stage := ⟨.a85, p, fun x => 60 :: 126 :: (a85Enc x ++ [126, 62])⟩
+/-- the PDF form: digits and `~>` -/
+def a85Stage (p : Option Dict) : Stage := ⟨.a85, p, fun x => a85Enc x ++ [126, 62]⟩
 def rlStage (p : Option Dict) : Stage := ⟨.rl, p, rlEnc⟩
 
-theorem filter_noWs (e : List Nat) (h : ∀ c ∈ e, isAsciiWs c = false) : e.filter (fun c => !isAsciiWs c) = e := by
+theorem filter_noWs (e : List Nat) (h : ∀ c ∈ e, isPdfWs c = false) : e.filter (fun c => !isPdfWs c) = e := by
   rw [List.filter_eq_self]
   intro c hc; simp [h c hc]
 
-theorem hexEnc_noWs (u : Bool) : ∀ (b : List Nat), Bytes b → ∀ c ∈ hexEnc u b, isAsciiWs c = false := by
+theorem hexEnc_noWs (u : Bool) : ∀ (b : List Nat), Bytes b → ∀ c ∈ hexEnc u b, isPdfWs c = false := by
   intro b
   induction b with
   | nil => intro _ c hc; simp [hexEnc] at hc
@@ -320,19 +376,19 @@ theorem hexEnc_noWs (u : Bool) : ∀ (b : List Nat), Bytes b → ∀ c ∈ hexEn
     intro hb c hc
     rw [Bytes.cons] at hb
     simp only [hexEnc, List.mem_cons] at hc
-    have key : ∀ k, k < 16 → isAsciiWs (Codec.hexDigit u k) = false := by
+    have key : ∀ k, k < 16 → isPdfWs (Codec.hexDigit u k) = false := by
       intro k hk
-      unfold Codec.hexDigit isAsciiWs
+      unfold Codec.hexDigit isPdfWs isAsciiWs
       cases u <;> simp <;> split <;> omega
     rcases hc with rfl | rfl | hc
     · exact key _ (by omega)
     · exact key _ (by omega)
     · exact ih hb.2 c hc
 
-theorem hexStage_roundTrips (E : Ext) (u : Bool) (p : Option Dict) (hp : NoPredictor p) :
+theorem hexStage_roundTrips (E : Ext) (u : Bool) (p : Option Dict) :
     (hexStage u p).RoundTrips E := by
   refine ⟨(by intro h; cases h), fun x hx => ?_⟩
-  refine applyFilter_noPredictor E _ .hex p hp (Or.inl rfl) x ?_
+  refine applyFilter_byteFilter E _ .hex p (Or.inl rfl) x ?_
   refine C07_hex_roundtrip _ u x _ [62] hx.1 (Or.inr ⟨[], rfl⟩) ?_ hx.2
   apply filter_noWs
   intro c hc
@@ -342,26 +398,24 @@ theorem hexStage_roundTrips (E : Ext) (u : Bool) (p : Option Dict) (hp : NoPredi
   · exact hexEnc_noWs u x hx.1 c hc
   · rfl
 
-theorem a85Stage_roundTrips (E : Ext) (p : Option Dict) (hp : NoPredictor p) : (a85Stage p).RoundTrips E := by
+theorem a85Stage_roundTrips (E : Ext) (p : Option Dict) : (a85Stage p).RoundTrips E := by
   refine ⟨(by intro h; cases h), fun x hx => ?_⟩
-  refine applyFilter_noPredictor E _ .a85 p hp (Or.inr (Or.inl rfl)) x ?_
-  refine C07_a85_roundtrip_prefixed _ x _ [] hx.1 ?_ hx.2
+  refine applyFilter_byteFilter E _ .a85 p (Or.inr (Or.inl rfl)) x ?_
+  refine C07_a85_roundtrip _ x _ [] hx.1 ?_ hx.2
   apply filter_noWs
   intro c hc
-  change c ∈ 60 :: 126 :: (a85Enc x ++ [126, 62]) at hc
+  change c ∈ a85Enc x ++ [126, 62] at hc
   simp only [List.mem_cons, List.mem_append, List.not_mem_nil, or_false] at hc
-  rcases hc with rfl | rfl | hc | rfl | rfl
-  · rfl
-  · rfl
+  rcases hc with hc | rfl | rfl
   · rcases a85Enc_range x c hc with rfl | ⟨h1, h2⟩
     · rfl
-    · unfold isAsciiWs; simp; omega
+    · unfold isPdfWs isAsciiWs; simp; omega
   · rfl
   · rfl
 
-theorem rlStage_roundTrips (E : Ext) (p : Option Dict) (hp : NoPredictor p) : (rlStage p).RoundTrips E := by
+theorem rlStage_roundTrips (E : Ext) (p : Option Dict) : (rlStage p).RoundTrips E := by
   refine ⟨(by intro h; cases h), fun x hx => ?_⟩
-  exact applyFilter_noPredictor E _ .rl p hp (Or.inr (Or.inr rfl)) x (C07_rl_roundtrip _ x hx.2)
+  exact applyFilter_byteFilter E _ .rl p (Or.inr (Or.inr rfl)) x (C07_rl_roundtrip _ x hx.2)
 
 /-- **Filter chains compose**: for any list of stages whose decoders invert their encoders, with the
 per-stage `DecodeParms` the decoder looks up (`get_filter_params`) being the stage's own, and every
@@ -384,11 +438,10 @@ theorem C07_chain_hex_a85_rl (E : Ext) (stages : List Stage) (x : List Nat)
     decodeStream E (encodeChain stages x) (.array (stages.map (fun s => some s.name))) .none = .ok x := by
   refine C07_chain_roundtrip E .none stages x ?_ ?_ hfit
   · intro s hs
-    have hn : NoPredictor none := fun d h => by cases h
     rcases hst s hs with ⟨u, rfl⟩ | rfl | rfl
-    · exact hexStage_roundTrips E u none hn
-    · exact a85Stage_roundTrips E none hn
-    · exact rlStage_roundTrips E none hn
+    · exact hexStage_roundTrips E u none
+    · exact a85Stage_roundTrips E none
+    · exact rlStage_roundTrips E none
   · intro k s hk
     have hs := List.mem_of_getElem? hk
     rcases hst s hs with ⟨u, rfl⟩ | rfl | rfl <;> rfl
